@@ -172,7 +172,7 @@ class FixedArray(Array, Generic[ValuesType]):
 
     # Equality -------------------------------------------------------------------------------------
     def __eq__(self, other: Any) -> bool:
-        return Array.__eq__(self, other) and self.dimension == other.dimension
+        return Array.__eq__(self, other) and self.dimension == getattr(other, "dimension", None)
 
     def __reduce__(self) -> Any:
         """
